@@ -66,6 +66,8 @@ func replayMain(in, out, sum string, seed int64, from, to int, o runOpts, via st
 		baseFd := fdCount()
 		tr.Emit(map[string]any{"ev": "Reset", "beh": bi})
 		o.viaManager = via == "manager" || (via == "alternate" && bi%2 == 0)
+		o.debugLog = bi%3 != 0 // two of three behaviours run with debug logging enabled
+		o.v6 = bi%4 == 1       // one of four with a dual-stack listener and an IPv6 client
 		r := newRunOpts(w, tr, brng, o)
 		closed := false
 		for _, st := range behs[bi] {
@@ -87,6 +89,7 @@ func replayMain(in, out, sum string, seed int64, from, to int, o runOpts, via st
 		}
 		ei := r.doShutdown(baseG, baseFd)
 		ei.ViaManager, ei.Validator = o.viaManager, o.validator
+		ei.DebugLog, ei.V6 = o.debugLog, o.v6
 		ends = append(ends, ei)
 	}
 	if sum != "" {
